@@ -240,7 +240,7 @@ func VF_C10_put3_delete() { vhSmall = true; vhLen2 = true; vhTrieOps(4, "pppd", 
 //vf:tier quick
 //vf:unwind 64
 //vf:hash uf+injective
-//vf:bound (nibble alphabet {0,1}) trie of 2 (quick) / 3 (thorough) keys of 1..2 bytes with distinct concrete values, flushed; Find with prefix of 0..1 bytes, start point of 0..2 symbolic bytes, at most 1..3 results, compared with the sorted content
+//vf:bound (nibble alphabet {0,1}) trie of 2 (quick) / 3 (thorough) keys of 1..2 bytes with distinct concrete values, flushed or not; Find with prefix of 0..1 bytes, start point of 0..2 symbolic bytes, at most 1..3 results, compared with the sorted content; Get of every key afterwards
 func VF_C10_find_matches_content() {
 	vhSmall = true
 	st := storage.NewMemCachedStore(storage.NewMemoryStore())
@@ -252,7 +252,10 @@ func VF_C10_find_matches_content() {
 		vfAssert(t.Put(k, v) == nil, "Put-ok")
 		c.set(k, v)
 	}
-	t.Flush(0)
+	flushed := vfBool("flush-before-find")
+	if flushed {
+		t.Flush(0)
+	}
 	prefix := vfBytes("prefix", vfChoose("prefix.len", 0, 1))
 	var from []byte
 	if fl := vfChoose("from.len", 0, 2); fl > 0 {
@@ -286,5 +289,13 @@ func VF_C10_find_matches_content() {
 			v, _ := c.get(want[i])
 			vfAssert(bytes.Equal(got[i].Value, v), "Find-values")
 		}
+	}
+	// reads after the range search still agree with the content
+	vfKnown("find-on-unflushed-trie-collapses-nodes", !flushed)
+	for _, i := range c.sorted() {
+		k := c.keys[i]
+		v, _ := c.get(k)
+		gv, gerr := t.Get(k)
+		vfAssert(gerr == nil && bytes.Equal(gv, v), "Get-after-Find==content")
 	}
 }
